@@ -24,7 +24,9 @@ RULE = ("texts of 1..8 examples in standard syntax: assignments, printing calls,
         "value, inline '# doctest:' directives SKIP / ELLIPSIS / NORMALIZE_WHITESPACE / IGNORE_EXCEPTION_DETAIL; separation "
         "by blank lines and prose; every example at its own indentation 0/2/4/8, changing after a want (directly), after "
         "a blank line or prose, and (rarely, finding F15) directly under source.  A text is used only if the standard doctest module passes it with "
-        "optionflags=0.  Non-trivial = at least one want and one compound or raising example; distinct by text hash")
+        "optionflags=0.  Non-trivial = at least one want and one compound or raising example; distinct by text hash.  "
+        "Plus the real docstrings of 26 (quick) / 66 (thorough) pure-Python standard-library modules, each run with the "
+        "module's globals: those the standard module passes must be collected once and must not fail here")
 ASSUMPTIONS = [
     "texts that the standard module itself rejects are generator noise and are skipped (counted as std-rejects)",
     "'executing the same examples' is judged by the event log each example appends its id to",
@@ -54,7 +56,7 @@ KINDS = ['assign', 'emit', 'val', 'str', 'for', 'def', 'call', 'if', 'raise', 'r
 def required_cells(tier):
     return (['kind:' + k for k in KINDS if k != 'pv'] + ['terminated-continuation', 'stack-lines', 'prose-separation',
             'indent:0', 'indent:4', 'indent:2', 'indent:8', 'both-pass', 'reindent-after-want:less',
-            'reindent-after-want:more'])
+            'reindent-after-want:more', 'corpus:both-pass'])
 
 
 def gen_example(rng, i, defined):
@@ -364,15 +366,96 @@ def check_case(ctx, index, seed, doc_override=None):
         ctx.sample({'text': doc, 'stdlib_attempted': res.attempted, 'event_log_both': T}, limit=3)
 
 
+# ------------------------------------------------------------------ real doctests of the standard library
+
+CORPUS_QUICK = ['collections', 'difflib', 'textwrap', 'statistics', 'fractions', 'heapq', 'bisect', 'string', 'shlex',
+                'ipaddress', 'enum', 'dataclasses', 'calendar', 'pprint', 'reprlib', 'urllib.parse', 'fnmatch', 'graphlib',
+                'html', 'keyword', 'posixpath', 'ntpath', 'json', 'json.encoder', 'json.decoder', 'functools']
+CORPUS_MORE = ['decimal', 'datetime', 'copy', 'operator', 'types', 'typing', 'unittest.mock', 'zipfile', 'ast', 'inspect',
+               'locale', 'numbers', 'random', 'secrets', 'struct', 'tokenize', 'colorsys', 'csv', 'glob', 'http.cookies',
+               'mimetypes', 'nturl2path', 'pickletools', 'quopri', 'sched', 'stat', 'timeit', 'uuid', 'wave',
+               'xml.dom.minidom', 'xml.etree.ElementTree', 'email.utils', 'email.headerregistry', 'logging', 'argparse',
+               'base64', 'codecs', 'contextlib', 'abc', 're']
+
+
+def check_stdlib_module(ctx, modname):
+    """every docstring of a pure-Python standard-library module that the standard doctest module passes
+    (optionflags=0, module globals) must be collected once and must not fail under xdoctest"""
+    import copy
+    import importlib
+    from xdoctest import core
+    try:
+        m = importlib.import_module(modname)
+        if not getattr(m, '__file__', '').endswith('.py'):
+            return
+        tests = doctest.DocTestFinder(exclude_empty=True).find(m)
+    except Exception:
+        return
+    for t in sorted(tests, key=lambda t: t.name):
+        if not t.examples or not t.docstring:
+            continue
+        t2 = copy.copy(t)
+        t2.globs = dict(m.__dict__)
+        try:
+            with contextlib.redirect_stdout(io.StringIO()), contextlib.redirect_stderr(io.StringIO()):
+                res = doctest.DocTestRunner(optionflags=0, verbose=False).run(t2, out=lambda s: None, clear_globs=True)
+        except BaseException:
+            continue
+        if res.failed:
+            ctx.cell('corpus:std-rejects')
+            continue
+        ctx.evaluation()
+        ctx.event('stdlib_corpus_doctests_passing_under_doctest')
+        case = {'corpus': modname, 'name': t.name, 'doc': t.docstring}
+
+        def bad(mech, msg):
+            ctx.violation(mech, '%s: %s\n--- docstring (passes under the standard doctest module, %d examples attempted) ---\n%s' % (
+                t.name, msg, res.attempted, t.docstring), case)
+        try:
+            with warnings.catch_warnings(), contextlib.redirect_stdout(io.StringIO()):
+                warnings.simplefilter('ignore')
+                exs = list(core.parse_docstr_examples(t.docstring, callname=t.name, modpath=m.__file__, style='freeform'))
+        except Exception as ex:
+            bad('collect-raised', 'parse_docstr_examples raised %r' % (ex,))
+            continue
+        if len(exs) != 1:
+            bad('not-collected-once', 'xdoctest collects %d doctests' % len(exs))
+            continue
+        e = exs[0]
+        e.mode = 'native'
+        try:
+            with contextlib.redirect_stdout(io.StringIO()), contextlib.redirect_stderr(io.StringIO()):
+                s = e.run(on_error='return', verbose=0)
+        except BaseException as ex:
+            bad('run-raised', 'xdoctest run raised %r' % (ex,))
+            continue
+        if s['failed']:
+            fp = getattr(e, 'failed_part', None)
+            bad('xdoctest-fails', 'fails under xdoctest: %r at %r' % (
+                s['exc_info'][1], fp.orig_lines[0] if hasattr(fp, 'orig_lines') else fp))
+            continue
+        if s['skipped'] and res.attempted:
+            bad('xdoctest-skips', 'the standard module executed %d examples, xdoctest reports the doctest skipped' % res.attempted)
+            continue
+        ctx.cell('corpus:both-pass')
+        ctx.nontrivial(t.docstring)
+
+
 def run_shard(ctx):
     warnings.simplefilter('ignore')
     n = ctx.pick(4000, 80000)
     for idx in ctx.my_indices(n):
         check_case(ctx, idx, ctx.case_seed(idx))
+    mods = CORPUS_QUICK + ([] if ctx.quick() else CORPUS_MORE)
+    for mn in mods[ctx.shard::ctx.nshards]:
+        check_stdlib_module(ctx, mn)
 
 
 def replay(case, ctx):
     warnings.simplefilter('ignore')
+    if 'corpus' in case:
+        check_stdlib_module(ctx, case['corpus'])
+        return
     check_case(ctx, case['index'], case['case_seed'])
 
 
